@@ -5,7 +5,8 @@ Record case := K { c_eps : Z; c_a : list triple; c_b : list triple; c_collar : Z
                    o_support : oann; o_durs : list (name * Z); o_chart : list (name * Z);
                    o_argmax : option name; o_argmax_sup : option name;
                    o_mul : list (list Z); o_mul_rev : list (list Z);
-                   o_labels_a : list name; o_labels_b : list name }.
+                   o_labels_a : list name; o_labels_b : list name;
+                   o_pct : option (list (name * (Z * Z))) }.
 
 Definition nz_eqb := pair_eqb name_eqb Z.eqb.
 Fixpoint ins_nz (kv : name * Z) (l : list (name * Z)) : list (name * Z) :=
@@ -36,6 +37,17 @@ Definition argmax_spec (eps : Z) (a : ann) (s : option sup) (obs : option name) 
       name_in l labs && forallb (fun l' => snd (label_duration eps c1 l') <=? d) labs
   end.
 
+(* chart(percent=True): the observed doubles (given exactly as numerator / denominator) against duration / total of the model *)
+Definition pct_close (obs m : name * (Z * Z)) : bool :=
+  let '(n, den) := snd obs in
+  let '(d, T) := snd m in
+  name_eqb (fst obs) (fst m) && (0 <? den) && (0 <? T) && (Z.abs (n * T - d * den) * 1099511627776 <=? den * T).
+Definition pct_ok (eps : Z) (a : ann) (obs : option (list (name * (Z * Z)))) : bool :=
+  match obs with
+  | None => true
+  | Some l => list_eqb pct_close l (snd (chart_percent eps a))
+  end.
+
 Definition check (c : case) : nat :=
   let eps := c_eps c in
   let a := ann_of eps None None (c_a c) in
@@ -54,7 +66,8 @@ Definition check (c : case) : nat :=
     && argmax_spec eps a None (o_argmax c) && argmax_spec eps a s (o_argmax_sup c)
     && names_eqb (o_labels_a c) labs && names_eqb (o_labels_b c) (snd (labels eps b))
     && mat_eqb (o_mul c) (mul_ann eps a b)
-    && mat_eqb (o_mul_rev c) (mul_ann eps b a) in
+    && mat_eqb (o_mul_rev c) (mul_ann eps b a)
+    && pct_ok eps a (o_pct c) in
   let model_eq :=
     oann_exact (o_support c) sup_model
     && list_eqb nz_eqb (o_chart c) ch
